@@ -234,7 +234,7 @@ PROPS = {
             B("w_expr.cpp", "expr", quick=6, thorough=90, params="faults=1,more=1,alloc=1", oracles=["c12.", "c04.started-after-stop", "c04.child-not-stopped", "c04.loser-not-stopped"]),
         ],
         level_text=("Seeded sender-interpreter runs: a random expression tree (depth<=4, <=12 nodes, <=8 scripted leaves) over the real library adaptors, each node re-erased through a harness any_snd so that every edge is a tap; leaves complete inline or later on two actor threads with value/error/done and react to stop or ignore it; an external stop request is placed before start, after k yields or when a chosen leaf has started; faults: throwing callables, a throwing k-th Val copy, spurious weak-CAS failures and wake-ups; the root op state is destroyed inside the root receiver's completion in most runs. C12 oracle: every started leaf records get_scheduler / get_allocator / a custom query CPO as seen through the receiver it was given; they must equal the root receiver's answers modified only by on (scheduler) and with_query_value (custom CPO) on the path; get_stop_token chaining is decided by C04's oracles on the same runs."),
-        level_note=('Honest scope: the forwarding clause is a function of the program only; the simulator contributes the generated programs. allocate()/with_allocator pairing is covered by the more=1 batch (every allocation made through an allocator obtained from a receiver goes back to that allocator, also when a nested connect throws or an allocation fails); the allocator argument of spawn_detached/spawn_future is not.'),
+        level_note=('Honest scope: the forwarding clause is a function of the program only; the simulator contributes the generated programs. allocate()/with_allocator pairing is covered by the more=1 batch (every allocation made through an allocator obtained from a receiver goes back to that allocator, also when a nested connect throws or an allocation fails); the allocator argument of spawn_detached/spawn_future is checked for pairing on the scope workloads (C08/C09 executions; oracle c12.allocator-pairing is decided there).'),
         real=["just/just_error/just_done, then, upon_error, upon_done, let_value, let_error, let_done, finally, sequence, when_all (2-3), stop_when, unstoppable, via, on, with_query_value, materialize+dematerialize, done_as_optional, let_value_with_stop_source", "single_thread_context/manual_event_loop, inline_scheduler", "inplace_stop_source, inplace_stop_token_adapter, fused_stop_source"],
         stub=["harness leaves, taps and erased any_snd plumbing (kit/expr.hpp)", "kit::sim_stop_source", "pthread layer, heap (usim)"],
     ),
@@ -268,10 +268,10 @@ PROPS = {
     "C09": dict(
         title="A future yields its operation's result or done; shared state freed once",
         batches=[
-            B("w_scope.cpp", "scope_v2", quick=10, thorough=150, oracles=["c09."] + RT_MEM + RT_LIB),
-            B("w_scope.cpp", "scope_v1", quick=8, thorough=120, oracles=["c09."] + RT_MEM + RT_LIB),
-            B("w_scope.cpp", "scope_v2", params="faults=1", quick=6, thorough=90, oracles=["c09.", "c02."] + RT_MEM + RT_LIB),
-            B("w_scope.cpp", "scope_v1", params="faults=1", quick=5, thorough=60, oracles=["c09.", "c02."] + RT_MEM + RT_LIB),
+            B("w_scope.cpp", "scope_v2", quick=10, thorough=150, oracles=["c09.", "c12.allocator-pairing"] + RT_MEM + RT_LIB),
+            B("w_scope.cpp", "scope_v1", quick=8, thorough=120, oracles=["c09.", "c12.allocator-pairing"] + RT_MEM + RT_LIB),
+            B("w_scope.cpp", "scope_v2", params="faults=1", quick=6, thorough=90, oracles=["c09.", "c02.", "c12.allocator-pairing"] + RT_MEM + RT_LIB),
+            B("w_scope.cpp", "scope_v1", params="faults=1", quick=5, thorough=60, oracles=["c09.", "c02.", "c12.allocator-pairing"] + RT_MEM + RT_LIB),
         ],
         level_text=("Same executions as C08 (scope workloads) with the future oracles: a future awaited with or without a later cancellation, or "
                     "dropped before/after its operation completes, on another thread than the completer. Oracles: value/error equal to what the "
